@@ -383,7 +383,7 @@ def run_check(tier, seed, nworkers=None, nruns=None, budget_s=None, evidence_pat
                                for k, v in sorted(agg["state_touch"].items())[:20]},
                            "kinds": chosen, "runs_planned": idx - n}
         runs_before = agg["runs"]
-        collect(launch(assign2, min(max(90.0, left), hard_s - (time.monotonic() - t0) - 60),
+        collect(launch(assign2, min(max(70.0, left), 110.0, hard_s - (time.monotonic() - t0) - 60),
                        extra_plan=extra))
         agg["targeted"]["runs_executed"] = agg["runs"] - runs_before
         n = idx
